@@ -42,6 +42,8 @@ impl ProcessRegistry {
         let handle = self.by_pid.write().await.remove(pid);
         #[cfg(edp_rs_verif)]
         edp_client::verif::sched_point("registry::between_tables").await;
+        #[cfg(edp_rs_verif)]
+        edp_client::verif::sched_hold("registry::between_tables").await;
         // a process that is gone no longer holds its registered names
         self.by_name
             .write()
